@@ -29,7 +29,7 @@ TRUSTED = [
     "C15 psutil.Popen objects are built by the real Popen.__init__ with subprocess.Popen replaced by a stub (pid, returncode=None, spawns nothing); subprocess's own poll() is emulated by the harness (reaps the simulated child, stores WEXITSTATUS / -WTERMSIG as CPython's _handle_exitstatus does)",
 ]
 MANIFEST = {
-    "level_text": "Machine-checked Lean 4 proofs over a virtual-time model (exact rationals, fuelled loops) of _psposix.wait_pid, Process.wait, psutil.Popen.wait (psutil's wrapper only) and psutil.wait_procs incl. its argument checks, for EVERY exit instant, timeout, status word, EINTR pattern, set-iteration order and number of processes: never early, status decoding = wait(2) encoding for all exit codes 0-255 and signals 1-126 (with/without core), TimeoutExpired only at/after the deadline carrying seconds/pid and less than one 40 ms poll late, a process that ended by the deadline (in particular strictly between the last poll and the deadline) is never reported as timed out, sleep schedule min(0.1ms*2^n, 40ms), timeout=0 never sleeps, negative timeout -> ValueError, PID 0 -> ValueError with nothing cached, waiting for oneself can only time out, cached later calls, termination with a timeout (explicit fuel bound), EINTR cannot change a returned result; Popen.wait = Process.wait while returncode is unset, stores the returned status in both layers, answers from returncode at once afterwards; wait_procs partition / callback exactly once / returncode / gone-really-ended / alive-really-running at the return instant / return before deadline+40ms / termination with a timeout / ValueError then TypeError argument checks before anything else. Partial: 'TimeoutExpired only with the process still alive' is proved for calls whose last waitpid was not interrupted, with a proved counterexample (EINTR at the deadline) recorded as a known finding and a proof (C15_eintr_no_repair) that no waitpid-polling procedure can meet both clauses under persistent EINTR; 'negative timeout -> ValueError' for Popen.wait holds only while returncode is unset (proved counterexample, known finding with a proposed fix, theorem for the repaired wrapper); syscalls cost zero virtual time. Tied to the code by 14 translator facts (0.0001, *2, 0.04, check-before-sleep, >=, >= 0 validation, 1.0/len(alive), pid<=0 check, callable check, the three-part shape of Popen.wait) feeding the proof obligation cfg_good, by a differential run of the real functions over a virtual clock comparing result/exception fields, full sleep log, return instant, callback log, subprocess returncode, and by an exhaustive sweep of all 65 536 status words.",
+    "level_text": "Machine-checked Lean 4 proofs over a virtual-time model (exact rationals, fuelled loops) of _psposix.wait_pid, Process.wait, psutil.Popen.wait (psutil's wrapper only) and psutil.wait_procs incl. its argument checks, for EVERY exit instant, timeout, status word, EINTR pattern, set-iteration order and number of processes: never early, status decoding = wait(2) encoding for all exit codes 0-255 and signals 1-126 (with/without core), TimeoutExpired only at/after the deadline carrying seconds/pid and less than one 40 ms poll late, a process that ended by the deadline (in particular strictly between the last poll and the deadline) is never reported as timed out, sleep schedule min(0.1ms*2^n, 40ms), timeout=0 never sleeps, negative timeout -> ValueError, PID 0 -> ValueError with nothing cached, waiting for oneself can only time out, cached later calls, termination with a timeout (explicit fuel bound), EINTR cannot change a returned result; Popen.wait = Process.wait while returncode is unset, stores the returned status in both layers, answers from returncode at once afterwards; wait_procs partition / callback exactly once / returncode / gone-really-ended / alive-really-running at the return instant / return before deadline+40ms / termination with a timeout / ValueError then TypeError argument checks before anything else. Partial: 'TimeoutExpired only with the process still alive' is proved for calls whose last waitpid was not interrupted, with a proved counterexample (EINTR at the deadline) recorded as a known finding and a proof (C15_eintr_no_repair) that no waitpid-polling procedure can meet both clauses under persistent EINTR; the EINTR-at-the-deadline case (C15-eintr-deadline) is the one known finding left; 'negative timeout -> ValueError' for Popen.wait is proved at full strength for the code as it is now (C15_popen_wait_negative, through the obligation cfg_popen_validates_first), the code as found answered from a stored returncode first (proved counterexample C15_popen_wait_negative_counterexample; fixed in /repo by 3859330); syscalls cost zero virtual time. Tied to the code by 14 translator facts (0.0001, *2, 0.04, check-before-sleep, >=, >= 0 validation, 1.0/len(alive), pid<=0 check, callable check, the three-part shape of Popen.wait) feeding the proof obligation cfg_good, by a differential run of the real functions over a virtual clock comparing result/exception fields, full sleep log, return instant, callback log, subprocess returncode, and by an exhaustive sweep of all 65 536 status words.",
     "level_note": "Trusted: Lean kernel + {propext, Classical.choice, Quot.sound}; the translator; the correspondence harness and its simulated kernel; zero-cost syscalls; doubles = exact rationals; glibc W* macros as transcribed; subprocess.Popen replaced by a stub holding pid/returncode (its own poll() emulated as CPython's _handle_exitstatus).",
     "technique": "Lean 4 invariants over fuelled loops in virtual time (Rat) + translator-fed proof obligation + differential correspondence under a virtual clock with exhaustive status-word sweep",
     "design_ref": "DESIGN.md §5 C15",
